@@ -26,6 +26,9 @@ def atoi (s : Bytes) : Int × Bool :=
     | _ => (false, s)
   if body.isEmpty then (0, true)
   else if body.all isDigit then clamp neg (digitsVal body)
+  -- Go scans from the left and reports the RANGE error the moment the digits read so far overflow uint64,
+  -- before it would meet the invalid character (`99999999999999999999E` gives MaxInt64, not 0)
+  else if digitsVal (body.takeWhile isDigit) > 18446744073709551615 then ((if neg then minInt64 else maxInt64), true)
   else (0, true)
 
 def hexVal? (b : UInt8) : Option Nat :=
@@ -44,7 +47,10 @@ def parseHex64 (s : Bytes) : Int × Bool :=
   if body.isEmpty then (0, true)
   else
     match body.mapM hexVal? with
-    | none => (0, true)
+    | none =>
+      -- as in `atoi`: overflow of the hex digits read so far is reported before a later invalid character
+      if ((body.takeWhile fun b => (hexVal? b).isSome).filterMap hexVal?).foldl (fun n d => n * 16 + d) 0 > 18446744073709551615
+      then ((if neg then minInt64 else maxInt64), true) else (0, true)
     | some ds => clamp neg (ds.foldl (fun n d => n * 16 + d) 0)
 
 end Wl2k.Strconv
